@@ -75,6 +75,27 @@ func stubRename(oldpath, newpath string) error {
 	delete(vFS, oldpath)
 	return nil
 }
+
+// stubStat: a path exists if it is a file, a created directory, a database directory,
+// or a prefix of one of those. Only the error result is used by callers.
+func stubStat(name string) (os.FileInfo, error) {
+	if _, ok := vFS[name]; ok {
+		return nil, nil
+	}
+	if vDirs[name] {
+		return nil, nil
+	}
+	if _, ok := vDisk[name]; ok {
+		return nil, nil
+	}
+	for p := range vFS {
+		if strings.HasPrefix(p, name+"/") {
+			return nil, nil
+		}
+	}
+	return nil, os.ErrNotExist
+}
+
 func stubRemove(name string) error {
 	if _, ok := vFS[name]; !ok {
 		return os.ErrNotExist
@@ -93,6 +114,11 @@ func stubRemoveAll(path string) error {
 	for p := range vDisk {
 		if p == path || strings.HasPrefix(p, path+"/") {
 			delete(vDisk, p)
+		}
+	}
+	for p := range vDirs {
+		if p == path || strings.HasPrefix(p, path+"/") {
+			delete(vDirs, p)
 		}
 	}
 	return nil
@@ -138,6 +164,7 @@ func c08Stubs() map[string]interface{} {
 		"os.Rename":                              stubRename,
 		"os.RemoveAll":                           stubRemoveAll,
 		"os.Remove":                              stubRemove,
+		"os.Stat":                                stubStat,
 		"path/filepath.Walk":                     stubWalk,
 		"net.Listen":                             stubListen,
 		"google.golang.org/grpc.NewServer":       stubGrpcNewServer,
